@@ -67,12 +67,14 @@ ToQuote(s, i, q, nl) == IF At(s, i) \in {q, "NUL"} THEN [i |-> i, nl |-> nl]
 \* character literal the scanner also drops the character that follows it (extra = 1), as the implementation does.
 NonAscii(c) == c \in {"UALPHA", "UNUM", "OTHER"}
 QuoteTok(s, q, kind) ==
-  LET extra == IF kind = "Char" THEN 1 ELSE 0 IN
+  LET extra == IF kind = "Char" THEN 1 ELSE 0
+      nl1 == IF At(s, q + 1) = "NL" THEN 1 ELSE 0            \* a line break between the quotes counts as one
+  IN
   IF q + 1 >= Len(s) THEN Tok("Illegal", q + 1 + extra, {}, 0)                \* the text ends right after the quote
-  ELSE IF At(s, q + 2) = "SQ" /\ ~(kind = "Byte" /\ NonAscii(At(s, q + 1))) THEN Tok(kind, q + 3, {q + 1}, 0)
+  ELSE IF At(s, q + 2) = "SQ" /\ ~(kind = "Byte" /\ NonAscii(At(s, q + 1))) THEN Tok(kind, q + 3, {q + 1}, nl1)
   ELSE LET from == IF At(s, q + 2) = "SQ" THEN q + 3 ELSE q + 2          \* (a non-ASCII byte: on to the next quote)
            e == ToQuote(s, from, "SQ", 0)
-       IN Tok("Illegal", (IF At(s, e.i) = "SQ" THEN e.i + 1 ELSE e.i) + extra, {q + 1}, 0)
+       IN Tok("Illegal", (IF At(s, e.i) = "SQ" THEN e.i + 1 ELSE e.i) + extra, {q + 1}, nl1 + e.nl)
 
 Number(s, i) ==
   LET z == At(s, i) = "ZERO"
